@@ -1,8 +1,143 @@
-"""C15 -- contracts (proof part under construction) + bounded stand-in."""
-from pyvc.runner import Bounded
+"""C15 -- a TOTP configuration survives every serialisation."""
+import z3
 
-LEVEL = "other"
-EXPLANATION = "bounded stand-in only so far: the contracts of this property are checked on the real functions over the stated finite domains (see coverage.bounded); nothing is counted as proved."
-ASSUMPTIONS = []
-CONTRACTS = []
-BOUNDED = [Bounded("c15", "harness/c15.py", descr="see harness docstring", timeout=900)]
+from pyvc.contract import Bool, Const, Contract, Int, NoneT, Obj, Opt, Str, Union
+from pyvc.runner import Bounded
+from pyvc.values import SBool, SDict, SObj, SStr, SStub
+
+LEVEL = "proof"
+T = "passlib/totp.py"
+EXPLANATION = (
+    "Field preservation of the elision logic, with the class-level defaults (as set by TOTP.using()) symbolic: "
+    "to_dict / _to_uri_params are verified against 'what a loader of the same class reconstructs': for each of digits, "
+    "alg, period the value present in the output, or else the class default, must equal the instance value; key, label "
+    "and version are always carried; _adapt_dict_kwds refuses missing/unsupported versions and a missing key with "
+    "ValueError. The obligations for digits/alg/period are refuted in exactly the witness class of the recorded known "
+    "finding (instance value equal to the literal 6/sha1/30 under a different class default), so the run is reported at "
+    "level 'other'. URI quoting of hostile labels and the wallet are covered by the bounded stand-in."
+)
+ASSUMPTIONS = [
+    "loading goes through the same class (cls(**kwds) fills missing fields from type(self) defaults: TOTP.__init__)",
+    "urllib quoting / json are inverse pairs (bounded stand-in)",
+]
+
+ALG = Union(Const("sha1"), Const("sha256"), Const("sha512"))
+
+
+def _setup(it, args):
+    cls = SObj("TOTPclass", is_class=True, fields={"digits": Int(6, 10).make(it, "cls.digits"), "alg": ALG.make(it, "cls.alg"), "period": Int(lo=1).make(it, "cls.period"),
+                                                   "issuer": Opt(Str()).make(it, "cls.issuer"), "json_version": 1, "min_json_version": 1})
+    self = args["self"]
+    self.fields["__class__"] = cls
+    self.fields["json_version"] = 1
+    self.fields["wallet"] = None
+    self.fields["base32_key"] = SStr(z3.String("base32_key"), "str")
+    return {"cls_": cls}
+
+
+SELF = Obj(cls=(T, "TOTP"), fields={"digits": Int(6, 10), "alg": ALG, "period": Int(lo=1), "label": Opt(Str()), "issuer": Opt(Str())})
+
+ELISION = "[totp:class-default-elision]"
+
+to_dict = Contract(
+    "TOTP.to_dict", f"{T}::TOTP.to_dict",
+    params={"self": SELF, "encrypt": Const(None)},
+    setup=_setup,
+    ensures=[
+        ("digits survive (outside the recorded witness class)", "implies(not (self.digits == 6 and cls_.digits != 6), result.get('digits', cls_.digits) == self.digits)"),
+        ("algorithm survives (outside the recorded witness class)", "implies(not (self.alg == 'sha1' and cls_.alg != 'sha1'), result.get('alg', cls_.alg) == self.alg)"),
+        ("period survives (outside the recorded witness class)", "implies(not (self.period == 30 and cls_.period != 30), result.get('period', cls_.period) == self.period)"),
+        (f"digits survive when the instance value is the literal 6 under another class default {ELISION}", "implies(self.digits == 6 and cls_.digits != 6, result.get('digits', cls_.digits) == self.digits)"),
+        (f"algorithm survives when the instance value is the literal sha1 under another class default {ELISION}", "implies(self.alg == 'sha1' and cls_.alg != 'sha1', result.get('alg', cls_.alg) == self.alg)"),
+        (f"period survives when the instance value is the literal 30 under another class default {ELISION}", "implies(self.period == 30 and cls_.period != 30, result.get('period', cls_.period) == self.period)"),
+        ("the key is always carried", "result['key'] == self.base32_key"),
+        ("type and version are always carried", "result['type'] == 'totp' and result['v'] == 1"),
+        ("a non-empty label is carried", "implies(self.label is not None and len(self.label) > 0, result.get('label') == self.label)"),
+        ("a non-empty issuer survives (carried unless it equals the class default)", "implies(self.issuer is not None and len(self.issuer) > 0, result.get('issuer', cls_.issuer) == self.issuer)"),
+    ],
+    descr="instance fields and class defaults symbolic (any using() configuration)",
+)
+
+
+def _uri_param(name, default_expr, convert=lambda it, v: v, outside=None, inside=None):
+    def ens(it, env):
+        guard = None
+        if outside is not None:
+            guard = z3.Not(it.to_zbool(it.spec_bool(outside, env)))
+        if inside is not None:
+            guard = it.to_zbool(it.spec_bool(inside, env))
+        body = it.to_zbool(it.truth(_ens(it, env)))
+        return z3.Implies(guard, body) if guard is not None else body
+
+    def _ens(it, env):
+        res = it.resolve(env.lookup("result"))
+        self = env.lookup("self")
+        found = None
+        for item in res.items:
+            k, v = it.unpack(item, 2)
+            if k == name:
+                found = v
+        cls = env.lookup("cls_")
+        want = self.fields[{"algorithm": "alg"}.get(name, name)]
+        if found is None:
+            return it.cmp_vals("==", cls.fields[{"algorithm": "alg"}.get(name, name)], want)
+        return convert(it, found, want)
+
+    return ens
+
+
+uri_params = Contract(
+    "TOTP._to_uri_params", f"{T}::TOTP._to_uri_params",
+    params={"self": SELF},
+    setup=_setup,
+    ensures=[
+        ("digits survive the URI parameters (outside the recorded witness class)", _uri_param("digits", None, lambda it, f, w: it.cmp_vals("==", f, it.make_str(w)), outside="self.digits == 6 and cls_.digits != 6")),
+        ("period survives the URI parameters (outside the recorded witness class)", _uri_param("period", None, lambda it, f, w: it.cmp_vals("==", f, it.make_str(w)), outside="self.period == 30 and cls_.period != 30")),
+        ("algorithm survives the URI parameters (outside the recorded witness class)", _uri_param("algorithm", None, lambda it, f, w: it.cmp_vals("==", f, it.call_value(it.method_of(it.resolve(w), "upper"), [], {})), outside="self.alg == 'sha1' and cls_.alg != 'sha1'")),
+        (f"digits survive the URI parameters in the witness class {ELISION}", _uri_param("digits", None, lambda it, f, w: it.cmp_vals("==", f, it.make_str(w)), inside="self.digits == 6 and cls_.digits != 6")),
+        (f"period survives the URI parameters in the witness class {ELISION}", _uri_param("period", None, lambda it, f, w: it.cmp_vals("==", f, it.make_str(w)), inside="self.period == 30 and cls_.period != 30")),
+        (f"algorithm survives the URI parameters in the witness class {ELISION}", _uri_param("algorithm", None, lambda it, f, w: it.cmp_vals("==", f, it.call_value(it.method_of(it.resolve(w), "upper"), [], {})), inside="self.alg == 'sha1' and cls_.alg != 'sha1'")),
+        ("the secret is always carried", lambda it, env: it.cmp_vals("==", it.unpack(it.resolve(env.lookup("result")).items[0], 2)[1], env.lookup("self").fields["base32_key"])),
+    ],
+    descr="instance fields and class defaults symbolic",
+)
+
+
+def _adapt_setup(variant):
+    def setup(it, args):
+        d = {"key": SStr(z3.String("key"), "str")} if variant != "nokey" else {}
+        if variant == "enckey":
+            d = {"enckey": SDict({"c": 1})}
+        if variant != "nover":
+            d["v"] = Int().make(it, "v")
+        args["kwds"] = SDict(d)
+        return {"v": d.get("v")}
+
+    return setup
+
+
+CONTRACTS = [to_dict, uri_params]
+for _variant, _raises, _ens in (
+    ("ok", {"ValueError": "v is not None and (v == 0 or v < 1 or v > 1)"}, [("only supported versions are accepted", "v == 1"), ("the key is handed to the constructor", "result['key'] is not None")]),
+    ("nover", {"ValueError": None}, [("a missing version is refused", "False")]),
+    ("nokey", {"ValueError": None}, [("a missing key is refused", "False")]),
+):
+    CONTRACTS.append(Contract(
+        f"TOTP._adapt_dict_kwds[{_variant}]", f"{T}::TOTP._adapt_dict_kwds",
+        params={"cls": Obj(cls=(T, "TOTP"), is_class=True, fields={"json_version": 1, "min_json_version": 1}), "type": Const("totp"), "kwds": Const(None)},
+        setup=_adapt_setup(_variant),
+        raises=_raises,
+        ensures=_ens,
+        descr=f"dictionary variant: {_variant}",
+    ))
+
+BOUNDED = [Bounded("c15", "harness/c15.py", descr="round trips through uri/json/dict over hostile labels and class defaults; corrupted sources", timeout=900)]
+
+MUTANTS = [
+    ("to_dict drops the label", T, "        if self.label:\n            state[\"label\"] = self.label\n", "", "refute"),
+    ("to_dict writes the period under the wrong key", T, "            state[\"period\"] = self.period\n", "            state[\"perod\"] = self.period\n", "refute"),
+    ("_to_uri_params omits non-default digits", T, "        if self.digits != 6:\n            args.append((\"digits\", str(self.digits)))\n", "        if self.digits > 6:\n            args.append((\"digits\", str(self.digits + 0)))\n", "hold"),
+    ("_to_uri_params renders the period as digits", T, "            args.append((\"period\", str(self.period)))", "            args.append((\"period\", str(self.digits)))", "refute"),
+    ("_adapt_dict_kwds accepts a newer version", T, "        if not ver or ver < cls.min_json_version or ver > cls.json_version:", "        if not ver or ver < cls.min_json_version:", "refute"),
+    ("_adapt_dict_kwds accepts a missing key", T, "        elif \"key\" not in kwds:\n            raise cls._dict_parse_error(\"missing 'enckey' / 'key'\")", "        elif \"key\" not in kwds:\n            pass", "refute"),
+]
